@@ -105,12 +105,12 @@ var c12perms = []c12perm{
 }
 
 // positions joined with "+" carry the string at both places (a key and a value of one mapping)
-var c12positions = []string{"plugin-smap-key", "plugin-smap-value", "extra-smap-key+extra-smap-value", "extra-nested-key+extra-nested-value", "extra-key+extra-value", "plugin-config-key+plugin-config-value", "extra-nested-value", "command", "label", "plugin-source", "plugin-config-key", "plugin-config-value", "plugin-config-nested", "env-value", "extra-key", "extra-value", "extra-nested-key", "extra-list",
+var c12positions = []string{"plugin-source-noconfig", "plugin-smap-key", "plugin-smap-value", "extra-smap-key+extra-smap-value", "extra-nested-key+extra-nested-value", "extra-key+extra-value", "plugin-config-key+plugin-config-value", "extra-nested-value", "command", "label", "plugin-source", "plugin-config-key", "plugin-config-value", "plugin-config-nested", "env-value", "extra-key", "extra-value", "extra-nested-key", "extra-list",
 	"env-name", "key", "matrix-setup-value", "matrix-adjust-with", "matrix-extra", "signature-value", "signature-field", "cache-path"}
 
 var c12inScope = map[string]bool{"command": true, "label": true, "plugin-source": true, "plugin-config-key": true, "plugin-config-value": true, "plugin-config-nested": true,
 	"env-value": true, "extra-key": true, "extra-value": true, "extra-nested-key": true, "extra-list": true, "extra-nested-value": true,
-	"plugin-smap-key": true, "plugin-smap-value": true, "extra-smap-key+extra-smap-value": true,
+	"plugin-source-noconfig": true, "plugin-smap-key": true, "plugin-smap-value": true, "extra-smap-key+extra-smap-value": true,
 	"extra-nested-key+extra-nested-value": true, "extra-key+extra-value": true, "plugin-config-key+plugin-config-value": true}
 
 type c12case struct {
@@ -147,7 +147,7 @@ func c12step(c c12case) *pipeline.CommandStep {
 				// containers typed map[string]string (what a program builds; the parser never does)
 				"smap": map[string]string{at("plugin-smap-key", "sk"): at("plugin-smap-value", "sv"), "sk2": "sv2"},
 			}},
-			{Source: "./second", Config: nil},
+			{Source: "./" + at("plugin-source-noconfig", "second"), Config: nil},
 		},
 		Env: map[string]string{at("env-name", "NAME"): at("env-value", "val"), "OTHER": "o"},
 		Matrix: &pipeline.Matrix{
@@ -431,7 +431,7 @@ func init() {
 	register(&report.Check{
 		ID: "C12",
 		Rule: "every concatenation of <=3 (quick) / <=4 (thorough) pieces over a 25-piece alphabet (tokens with and without inner whitespace, dotted / dashed / dot-leading dimension names, unknown dimensions, " +
-			"near misses, brace fragments, plain text) x 26 positions of a command step (the same string at a key and a value of one mapping for three mappings; 12 single positions in scope: command, label, plugin source, config keys/values/nested, env values, unknown-field keys/values/nested/list; " +
+			"near misses, brace fragments, plain text) x 27 positions of a command step (the same string at a key and a value of one mapping for three mappings; 12 single positions in scope: command, label, plugin source, config keys/values/nested, env values, unknown-field keys/values/nested/list; " +
 			"8 out of scope: env names, key, matrix setup/with/extra, signature value/field, cache) x 7 permutations (seven dimensions, anonymous, named with . - _, token-shaped values that name each other, dot-leading names, dash/dot names, values that contain their own token) x 2 representations of the step (built by hand with plain Go maps; its JSON decoded by CommandStep.UnmarshalJSON, " +
 			"whose nested unknown mappings are ordered maps - quick: strings of <=2 pieces); " +
 			"InterpolateMatrixPermutation on the real code vs. a hand-written single-pass scanner mapped over the step's JSON before the call; unknown dimension in scope => error; empty permutation => deep " +
